@@ -66,7 +66,28 @@ Theorem C17_gen_thin_preserves_samplewise_relation :
 Proof. exact (thinD_preserves_samplewise_relation GenResample.thin_d C17_gen_thin_spec_ok). Qed.
 Print Assumptions C17_gen_thin_preserves_samplewise_relation.
 
+(* method_moments._sort_x_on_y_rank(x, y) as described now: sorts x, places by the argsort of y *)
+Theorem C17_gen_rank_spec_ok : rank_spec_ok GenResample.rank_d = true.
+Proof. vm_compute. reflexivity. Qed.
+Print Assumptions C17_gen_rank_spec_ok.
+
+Theorem C17_gen_rerank_rank_order : forall px py x y,
+  valid_perm_b y py = true -> length x = length y ->
+  length (rerankD GenResample.rank_d px py x y) = length y /\
+  forall p q, p < length y -> q < length y -> (nth p y 0 < nth q y 0)%Z ->
+              (nth p (rerankD GenResample.rank_d px py x y) 0 <= nth q (rerankD GenResample.rank_d px py x y) 0)%Z.
+Proof. exact (rerankD_rank_order GenResample.rank_d C17_gen_rank_spec_ok). Qed.
+Print Assumptions C17_gen_rerank_rank_order.
+
 (* ---------------------------------------------------------------- non-vacuity *)
+Example C17_gen_ex_rerank :      (* x = [5;7;6] re-ranked on y = [30;10;20] (argsort [1;2;0]) = [7;5;6]; swapped roles are rejected *)
+  rerankD GenResample.rank_d [0; 2; 1] [1; 2; 0] [5; 7; 6]%Z [30; 10; 20]%Z = [7; 5; 6]%Z
+  /\ valid_perm_b [30; 10; 20]%Z [1; 2; 0] = true
+  /\ rank_spec_ok (mkRankDesc 1 0 false (rk_shape GenResample.rank_d)) = false
+  /\ rerankD (mkRankDesc 1 0 false (rk_shape GenResample.rank_d)) [0; 2; 1] [1; 2; 0] [5; 7; 6]%Z [30; 10; 20]%Z
+     <> rerank [1; 2; 0] [5; 7; 6]%Z.
+Proof. repeat split; try (vm_compute; reflexivity). intro H. vm_compute in H. discriminate H. Qed.
+
 Example C17_gen_ex_runs :
   thinD GenResample.thin_d ex_tri 2 [2%nat; 0%nat] = thin ex_tri 2 [2%nat; 0%nat]
   /\ (exists t', thinD GenResample.thin_d ex_tri 2 [2%nat; 0%nat] = Ok t' /\ length t' = 2)
